@@ -1014,6 +1014,22 @@ class Curve(BaseCurve):
         """
         assert isinstance(other, self.__class__)
         vectora, vectorb = tuple(self.knotvector), tuple(other.knotvector)
+        if self.weights is None and other.weights is not None:
+            # No weights are imposed: fit the weighted points and the weights
+            # (homogeneous coordinates) with the polynomial operator
+            lstsq = heavy.LeastSquare.spline2spline
+            transmat, materror = lstsq(vectorb, vectora, nodes)
+            transmat = np.array(transmat)
+            oldweights = other.weights
+            numerators = [wei * pt for wei, pt in zip(oldweights, other.ctrlpoints)]
+            error = np.dot(np.moveaxis(numerators, 0, -1), np.dot(materror, numerators))
+            error = np.max(np.abs(error))
+            error += abs(np.dot(oldweights, np.dot(materror, oldweights)))
+            weights = np.dot(transmat, oldweights)
+            numerators = np.dot(transmat, numerators)
+            self.weights = weights
+            self.ctrlpoints = [num / wei for num, wei in zip(numerators, weights)]
+            return error
         if self.weights is None and other.weights is None:
             lstsq = heavy.LeastSquare.spline2spline
             transmat, materror = lstsq(vectorb, vectora, nodes)
@@ -1028,11 +1044,6 @@ class Curve(BaseCurve):
             np.moveaxis(other.ctrlpoints, 0, -1), np.dot(materror, other.ctrlpoints)
         )
         error = np.max(np.abs(error))
-        if other.weights is not None:
-            error += np.dot(other.weights, np.dot(materror, other.ctrlpoints))
-            weights = np.dot(transmat, weightsb)
-            ctrlpoints = [point / weig for point, weig in zip(ctrlpoints, weights)]
-            self.weights = weights
         self.ctrlpoints = ctrlpoints
         return error
 
